@@ -906,6 +906,50 @@ example : ((resend s (fun i => if i == 2 then .rejected else .accepted)).2,
            (resend s (fun i => if i == 2 then .rejected else .accepted)).1.unmined.map (·.id)) = ([2, 4, 3], [4]) := by decide
 end Example
 
+/-! ## Order of effects of `reliablyPublishTransaction`; two overlapping re-broadcasts (round 2, seeds C06-4, C20-5) -/
+
+/-- `publish` is the interpretation of its effect list: record, subscribe, (broadcast), (forget), in this order. -/
+theorem C20_publish_effects (s : Store) (tx : UTx) (ans : Answer) :
+    (publish s tx ans).1 = runEffects tx s (publishEffects ans) := by
+  cases ans <;> rfl
+
+/-- what `reliablyPublishTransaction` has done by the time it calls `SendRawTransaction` -/
+def beforeSend (es : List Effect) : List Effect := es.takeWhile (· != Effect.sendRaw)
+
+/-- **Nothing is handed to the backend before the notification subscription succeeded**, and nothing has been forgotten
+by then; a failed subscription and a broadcast never occur in the same call.  Hence the roll-back of a failed
+subscription cannot forget a transaction the backend has accepted. -/
+theorem C20_subscribe_before_broadcast (ans : Answer) (h : Effect.sendRaw ∈ publishEffects ans) :
+    Effect.record ∈ beforeSend (publishEffects ans) ∧ Effect.subscribe true ∈ beforeSend (publishEffects ans) ∧
+    Effect.forget ∉ beforeSend (publishEffects ans) ∧ Effect.subscribe false ∉ publishEffects ans := by
+  revert h
+  cases ans <;> decide
+
+/-- A failed subscription: the backend never sees the transaction. -/
+theorem C20_failed_subscription_never_broadcasts : sendCount (publishEffects .notifyFailed) = 0 := by decide
+
+/-- "forgotten" applies to FAILED attempts only: a transaction the backend accepted (or already holds in its mempool)
+was handed over exactly once and is never rolled back. -/
+theorem C20_published_never_forgotten (ans : Answer) (h : ans = .accepted ∨ ans = .inMempool) :
+    sendCount (publishEffects ans) = 1 ∧ Effect.forget ∉ publishEffects ans := by
+  rcases h with rfl | rfl <;> decide
+
+/-- **After EVERY resynchronisation**: when a second rescan finishes while the re-broadcast of the first is still
+waiting for the backend, each of the two re-broadcasts offers the complete list `C20_resend` speaks about. -/
+theorem C20_resend_every_resync (s : Store) (answers : Nat → Answer) :
+    (resendTwice s answers).2.1 = (resend s answers).2 ∧ (resendTwice s answers).2.2 = (resend s answers).2 := by
+  simp [resendTwice, resend, resendLoop_sent]
+
+theorem C20_resend_every_resync_all (s : Store) (answers : Nat → Answer) (hids : IdsNodup s)
+    (hac : Acyclic s.unmined) (u : UTx) (hu : u ∈ s.unmined) :
+    u.id ∈ (resendTwice s answers).2.1 ∧ u.id ∈ (resendTwice s answers).2.2 := by
+  obtain ⟨h1, h2⟩ := C20_resend_every_resync s answers
+  rw [h1, h2]
+  exact ⟨(C20_resend s answers hids hac).1 u hu, (C20_resend s answers hids hac).1 u hu⟩
+
+example : (resendTwice Example.s (fun i => if i == 2 then .rejected else .accepted)).2 = ([2, 4, 3], [2, 4, 3]) := by decide
+
+
 /-- **Finding F10** (code before fix fd54ea7): when `NotifyReceived` fails the call returns an error but the new
 transaction stays recorded — `C20_fresh_restores` is false of `publishUnfixed`. -/
 theorem C20_unfixed_notify_counterexample :
